@@ -237,6 +237,13 @@ func genReconn(r *Rng, prop string) *Scenario {
 		kindW = []int{2, 5, 4}
 		nreq = int(r.between(1, 8))
 		cfg.AlwaysResub = r.chance(0.35)
+		if r.chance(0.2) {
+			// a broker that grants less than was asked for (the table compared is
+			// the one of *requested* QoS)
+			for i := 0; i < 3; i++ {
+				cfg.GrantQoS = append(cfg.GrantQoS, byte(r.IntN(2)))
+			}
+		}
 	case "C06":
 		// what the broker answers to SUBSCRIBE is data from the peer too: failure
 		// (0x80) and downgraded return codes, then a lost session / re-subscription
@@ -587,6 +594,22 @@ func genReconn(r *Rng, prop string) *Scenario {
 		}
 	}
 
+	if prop == "C09" && r.chance(0.1) {
+		// an application Ping that is never answered (no deadline of its own) while
+		// Disconnect is called: Disconnect returns all the same
+		at := connectAt + 3*(cfg.LatC2BUs+cfg.LatB2CUs+cfg.DialLatUs) + r.between(500, 3000)
+		sc.Faults = append(sc.Faults, Fault{Kind: "silentFrom", Conn: 1, AtUs: at})
+		sc.Ops = append(sc.Ops, Op{AtUs: at + r.between(10, 300), Actor: 7, Kind: "ping"})
+		hasDisc := false
+		for _, op := range sc.Ops {
+			if op.Kind == "disconnect" {
+				hasDisc = true
+			}
+		}
+		if !hasDisc {
+			sc.Ops = append(sc.Ops, Op{AtUs: at + r.between(400, 2000), Actor: 3, Kind: "disconnect"})
+		}
+	}
 	if prop == "C11" && r.chance(0.3) {
 		// Ping through the reconnecting client, with a deadline, while other calls are made
 		for i := 0; i < int(r.between(1, 2)); i++ {
